@@ -51,11 +51,19 @@ Proof.
 Qed.
 Print Assumptions hosts_refused_iff.
 
+(* accepted exactly when there is a main host and no name occurs twice anywhere in the four groups *)
+Theorem hosts_accepted_iff :
+  forall c, valid_hosts c = true <->
+            (c_main c <> [] /\ NoDup (main_names c ++ c_ping c ++ c_speed c ++ c_rp c)).
+Proof. exact hosts_accepted_iff_proof. Qed.
+Print Assumptions hosts_accepted_iff.
+
 (* the code still has the modelled shape *)
 Theorem settings_code_as_modelled :
   CLIENTS_READ_AS_TOML_STRINGS = true /\ CLIENTS_EMPTY_FIELDS_REFUSED = true
   /\ SETTINGS_VALIDATE_AS_MODELLED = true /\ REVERSE_PROXY_VALIDATE_AS_MODELLED = true
-  /\ CORE_NEW_VALIDATES = true /\ REGISTRY_AUTH_AS_MODELLED = true /\ CLIENT_CONFIG_COPIES_PAIR = true.
+  /\ CORE_NEW_VALIDATES = true /\ REGISTRY_AUTH_AS_MODELLED = true /\ CLIENT_CONFIG_COPIES_PAIR = true
+  /\ TLS_HOSTS_UNIQUE_ACROSS_GROUPS = true.
 Proof. repeat split; exact eq_refl. Qed.
 Print Assumptions settings_code_as_modelled.
 
